@@ -3,6 +3,7 @@ import VProps.C05
 #print axioms V.C05.keep_tables_v11_member_deviates
 #print axioms V.C05.algos_ok
 #print axioms V.C05.redact_exact
+#print axioms V.C05.redact_drops_unlisted
 #print axioms V.C05.redact_idem
 #print axioms V.C05.redact_preserves_ids
 #print axioms V.C05.redact_preserves_reference
